@@ -286,6 +286,17 @@ func (e *SpecEnv) object(o types.Object, inOld bool) Val {
 	return Val{}
 }
 
+// ifaceNilCmp: an interface value is nil iff its dynamic type is nil.
+func ifaceNilCmp(a, b Val) (string, bool) {
+	if a.K == "Nil" && b.K == SIface {
+		return sEq(sx("if.tag", b.S), "0"), true
+	}
+	if b.K == "Nil" && a.K == SIface {
+		return sEq(sx("if.tag", a.S), "0"), true
+	}
+	return "", false
+}
+
 func (e *SpecEnv) coerceNil(a, b Val) (Val, Val) {
 	if a.K == "Nil" && b.K != "Nil" {
 		a = Val{e.nilOf(b), b.T, b.K}
@@ -472,6 +483,12 @@ func (e *SpecEnv) bin(x *SpecExpr, inOld bool) Val {
 	}
 	a := e.ex(x.Args[0], inOld)
 	b := e.ex(x.Args[1], inOld)
+	if t, ok := ifaceNilCmp(a, b); ok && (op == "==" || op == "!=") {
+		if op == "!=" {
+			t = sNot(t)
+		}
+		return Val{t, bt, SBool}
+	}
 	a, b = e.coerceNil(a, b)
 	if a.K == "Nil" && b.K == "Nil" {
 		e.fail("nil compared with nil")
@@ -481,10 +498,7 @@ func (e *SpecEnv) bin(x *SpecExpr, inOld bool) Val {
 		if a.K != b.K {
 			e.fail("comparison of different sorts (%s vs %s) in %s", a.K, b.K, x)
 		}
-		eq := sEq(a.S, b.S)
-		if a.K == SF64 {
-			eq = sx("fp.eq", a.S, b.S)
-		}
+		eq := sEq(a.S, b.S) // for float64: identity of the value (bitwise, all NaNs equal); IEEE equality is feq(a,b)
 		if op == "!=" {
 			eq = sNot(eq)
 		}
@@ -581,7 +595,9 @@ func (e *SpecEnv) sel(x *SpecExpr, inOld bool) Val {
 		for i := 0; i < s.NumFields(); i++ {
 			if s.Field(i).Name() == x.Name {
 				key, fs, ft := vc.fieldKey(pt.Elem(), i)
-				return Val{sSelect(vc.curIn(st, key), b.S), ft, fs}
+				rv := Val{sSelect(vc.curIn(st, key), b.S), ft, fs}
+				e.heapFact(st, rv)
+				return rv
 			}
 		}
 		e.fail("type %s has no field %s", pt.Elem(), x.Name)
@@ -627,7 +643,8 @@ func (e *SpecEnv) index(x *SpecExpr, inOld bool) Val {
 	switch t := b.T.Underlying().(type) {
 	case *types.Slice:
 		key, es := vc.memKey(t.Elem())
-		return Val{sSelect(sSelect(vc.curIn(st, key), sx("sl.base", b.S)), sx("sl.ix", sx("sl.off", b.S), i.S)), t.Elem(), es}
+		rv := Val{sSelect(sSelect(vc.curIn(st, key), sx("sl.base", b.S)), sx("sl.ix", sx("sl.off", b.S), i.S)), t.Elem(), es}
+		return rv
 	case *types.Array:
 		return Val{sSelect(b.S, i.S), t.Elem(), vc.sorts.sortOf(t.Elem())}
 	case *types.Map:
@@ -747,6 +764,10 @@ func (e *SpecEnv) call(x *SpecExpr, inOld bool) Val {
 		}
 		dom, _, _, _, _ := vc.mapKeys(mt)
 		return Val{sAnd(sNot(sEq(m.S, "0")), sSelect(sSelect(vc.curIn(st, dom), m.S), k.S)), bt, SBool}
+	case "feq":
+		a := e.ex(args[0], inOld)
+		b := e.ex(args[1], inOld)
+		return Val{sx("fp.eq", a.S, b.S), bt, SBool}
 	case "floor":
 		a := e.ex(args[0], inOld)
 		return Val{sx("fp.roundToIntegral", "RTN", a.S), a.T, SF64}
@@ -957,4 +978,28 @@ func (e *SpecEnv) conjuncts(x *SpecExpr, inOld bool) []string {
 		e.fail("expected boolean expression, got sort %s in %s", v.K, x)
 	}
 	return []string{v.S}
+}
+
+// heapFact: a reference read from the heap in state st was allocated before st (free fact, no quantified variables).
+func (e *SpecEnv) heapFact(st *State, v Val) {
+	if strings.Contains(v.S, "$q") {
+		return
+	}
+	switch v.K {
+	case SInt:
+		if v.T == nil {
+			return
+		}
+		switch v.T.Underlying().(type) {
+		case *types.Pointer, *types.Map:
+		default:
+			return
+		}
+	case SSlice, SIface:
+	default:
+		return
+	}
+	if f := e.vc.typeFactsIn(st, v); f != "true" {
+		e.side = append(e.side, f)
+	}
 }
